@@ -254,7 +254,8 @@ func OffendingTokens(p *load.Prog, r *oblig.Report, rule string, methods []strin
 					r.Bad(rule, construct, p.Pos(in.Pos()), "the offending token is "+tokPath+", not the start token of the name")
 				case base == "ctx":
 					r.Bad(rule, construct, p.Pos(in.Pos()), "the error points at ctx.GetStart(), the start of the whole declaration, not at the offending name")
-				case !texts[base] && !nameRules[ruleOfContext(cc.Args[1])] && !nameRules[ruleOfContextPath(ci, cc.Args[1])]:
+				case !texts[base] && !nameRules[ruleOfContext(cc.Args[1])] && !nameRules[ruleOfContextPath(ci, cc.Args[1])] &&
+					!nameRules[ruleOfContext(ci.Arg(cc.Args[1]))] && !nameRules[ruleOfContextPath(ci, ci.Arg(cc.Args[1]))]:
 					r.Bad(rule, construct, p.Pos(in.Pos()), "the error points at "+base+", which is neither a name rule of the grammar nor the text this callback reads")
 				case !nilExc:
 					r.Bad(rule, construct, p.Pos(in.Pos()), "a recognition exception is passed along: the position would be taken from it instead of the token")
@@ -353,7 +354,7 @@ func MergeErrors(p *load.Prog, r *oblig.Report, rule string) {
 			if ok {
 				if cal := fcall.Common().StaticCallee(); cal != nil {
 					finder = cal.Name()
-				} else if fv, isFn := li.Arg(fcall.Common().Value).(*ssa.Function); isFn {
+				} else if fv, isFn := stripChangeType(li.Arg(fcall.Common().Value)).(*ssa.Function); isFn {
 					finder = fv.Name() // the finder is handed to the constructor helper as a function value
 				}
 			}
@@ -495,4 +496,15 @@ func ruleOfContextPath(ci e5path.CallInst, tok ssa.Value) string {
 		return ""
 	}
 	return strings.ToLower(name[:1]) + name[1:]
+}
+
+// stripChangeType removes conversions between identical underlying types (a function converted to a named func type).
+func stripChangeType(v ssa.Value) ssa.Value {
+	for {
+		ct, ok := v.(*ssa.ChangeType)
+		if !ok {
+			return v
+		}
+		v = ct.X
+	}
 }
